@@ -120,25 +120,29 @@ add("C13", EXPL,
 add("C14", "model_checking",
     "stateless model checking of the implementation: real threads under a sys.settrace baton scheduler, "
     "ALL schedules with <= p preemptions (iterative context bounding) at source-line and bytecode "
-    "granularity, per-thread results compared with solo runs",
-    "273 (quick) harnesses of 2-3 threads over every Bundesbank method object (operands chosen so that "
-    "their scratch values differ), the IBAN-level path, lookups, generation, seeded random draws: every "
-    "schedule within the preemption bound is executed on the real code; replay determinism is asserted "
-    "per harness.",
-    "Switch points are line/opcode events inside schwifty/; foreign code is atomic; no free-threaded "
-    "build, no multiprocessing; bounds per harness group are in the evidence.",
-    "DESIGN.md section 4 C14")
+    "granularity, per-thread results compared with solo runs; real locks become forced switches, a hang "
+    "is a violation; cold-start and state-carrying harnesses run every execution in its own fork",
+    "About 400 (quick) harnesses of 2-3 threads over every Bundesbank method object (operands chosen by "
+    "remainder class and rule branch so that their scratch values differ), the IBAN-level path, lookups on "
+    "the same registry entry, generation, seeded random draws, raising national checks, assembly next to "
+    "a mistyped text, one object shared by two threads, and ten cold-start pairs: every schedule within "
+    "the preemption bound is executed on the real code; replay determinism is asserted per harness.",
+    "Switch points are line/opcode events inside schwifty/; foreign code is atomic (a blocked thread is "
+    "detected through its kernel state); no free-threaded build, no multiprocessing; bounds per harness "
+    "group are in the evidence.",
+    "DESIGN.md section 4 C14, 0a, 0c, 0e")
 add("C15", "model_checking",
     "explicit-state model checking of the implementation: breadth-first search to closure over the "
-    "library's global state (canonical fingerprint, states re-created by forking the pristine process "
-    "and replaying the shortest history), invariants on every transition; plus merge-free enumeration "
-    "of operation sequences",
-    "Every (reachable state, operation) transition over a 49-operation (thorough 65) alphabet is executed: "
-    "outcome equals the fresh-interpreter outcome, registry payload equals its post-import deep copy, "
-    "earlier objects unchanged; all short sequences are additionally executed without state merging.",
+    "library's global state (canonical fingerprint incl. a probe of pycountry's database; states "
+    "re-created by forking the pristine process and replaying the shortest history), one search per group "
+    "of operations sharing an algorithm object, invariants on every transition; plus merge-free enumeration "
+    "of operation sequences; reference outcomes from fresh interpreters under another hash seed",
+    "Every (reachable state, operation) transition over ~270 operations in ~40 groups is executed: outcome "
+    "equals the fresh-interpreter outcome, registry payload equals its post-import deep copy, earlier "
+    "objects unchanged; short sequences are additionally executed without state merging.",
     "The fingerprint covers module globals, class attributes, instance dicts and properties of schwifty "
-    "objects; operations outside the alphabet are not covered.",
-    "DESIGN.md section 4 C15")
+    "objects and pycountry's country list; operations outside the alphabet are not covered.",
+    "DESIGN.md section 4 C15, 0a, 0c, 0d")
 add("C16", EXPL, TECH_INPUT,
     "All ordered pairs of ~110 IBAN/BIC/BBAN objects (valid and allow_invalid) and plain strings under "
     "six operators, hashing, dict and set lookup; sorted() of all 3-subsets of a pool in all orders; "
